@@ -4,6 +4,7 @@ package main
 import (
 	_ "verif/h/c01"
 	_ "verif/h/c07"
+	_ "verif/h/c13"
 	_ "verif/h/c14"
 	_ "verif/h/c15"
 	_ "verif/h/c16"
